@@ -224,10 +224,11 @@ func runC14(tier string) int {
 	c14Marts(r, tier, sw)
 	c14Scaled(r, tier)
 	c14MassFile(r, tier)
+	c14Dictionary(r)
 	r.Assume("multipliers with a leading zero are not generated (octal vs decimal is not specified)",
 		"expected expansion is computed by the generator: N copies in order, cut after the first step_end, exactly one step_end last")
 	return r.Finish(r.Get("evaluations"), r.Get("nontrivial"),
-		"every movement list of <= L elements over 42 element kinds (3 steps x 12 multipliers incl. 0, negative, 9999, 10000, hex and a 20-digit number; 6 poryswitch-selected segments in colon, brace and nested forms) x statement / moves() form (and two moves() in one script that differ only in the length of the last run) x 3 separator styles; every mart list of <= M items over plain items, ITEM_NONE, constants (one equal to ITEM_NONE) and poryswitch segments; plus 'step * N' for every N in 1..10005, decimal and hex, statement and moves(); plus lists of K different steps and marts of K items for every K up to the bound in the coverage; plus one script holding every moves() list of 6 (thorough 7) steps over 8 names; non-trivial = a multiplier > 1 or a multi-step segment is present")
+		"every movement list of <= L elements over 42 element kinds (3 steps x 12 multipliers incl. 0, negative, 9999, 10000, hex and a 20-digit number; 6 poryswitch-selected segments in colon, brace and nested forms) x statement / moves() form (and two moves() in one script that differ only in the length of the last run) x 3 separator styles; every mart list of <= M items over plain items, ITEM_NONE, constants (one equal to ITEM_NONE) and poryswitch segments; plus 'step * N' for every N in 1..10005, decimal and hex, statement and moves(); plus lists of K different steps and marts of K items for every K up to the bound in the coverage; plus every identifier-like literal of the compiler's own source as a step and as a mart item; plus one script holding every moves() list of 6 (thorough 7) steps over 8 names; non-trivial = a multiplier > 1 or a multi-step segment is present")
 }
 
 // c14Scaled: the size dimension. Every multiplier value from 1 to 10005,
@@ -408,6 +409,49 @@ func c14MassFile(r *harness.Run, tier string) {
 	if bad > 0 {
 		r.Report(harness.Violation{Sig: "C14:mass:block-differs", Summary: fmt.Sprintf("script with %d different moves() lists: %d commands do not refer to a block of their own steps, e.g. list %d %v -> %s %v", n, bad, first, stepsOf(first), labelOf[first], blocks[labelOf[first]]), Replay: map[string]interface{}{"lists": n, "first_bad_index": first, "steps": stepsOf(first), "label": labelOf[first], "generator": "c14MassFile"}})
 	}
+}
+
+// c14Dictionary: every identifier-like literal of the compiler's own source as a movement step (plain and
+// multiplied, between two other steps) and as a mart item; only step_end and ITEM_NONE end a list.
+func c14Dictionary(r *harness.Run) {
+	words := dictIdents()
+	done := r.Parallel(uint64(len(words))*3, func(w int, idx uint64) {
+		word := words[idx/3]
+		var src, label string
+		var want []string
+		switch idx % 3 {
+		case 0:
+			src, label = "movement M {\n\tpre\n\t"+word+" * 2\n\tpost\n}\n", "M"
+			want = []string{"M:", "\tpre", "\t" + word}
+			if word != "step_end" {
+				want = append(want, "\t"+word, "\tpost", "\tstep_end")
+			}
+		case 1:
+			src, label = "script S {\n\tam(1, moves(pre "+word+" post))\n}\n", "S_Movement_0"
+			want = []string{"S_Movement_0:", "\tpre", "\t" + word}
+			if word != "step_end" {
+				want = append(want, "\tpost", "\tstep_end")
+			}
+		default:
+			src, label = "mart M {\n\tPRE\n\t"+word+"\n\tPOST\n}\n", "M"
+			want = []string{"M:", "\t.2byte PRE"}
+			if word != "ITEM_NONE" {
+				want = append(want, "\t.2byte "+word, "\t.2byte POST")
+			}
+			want = append(want, "\t.2byte ITEM_NONE")
+		}
+		res := comp.Compile(src, comp.Opts{Optimize: true})
+		r.Add("evaluations", 1)
+		r.Add("dictionary_sweep", 1)
+		got, ok := blockAfter(res.Out, label)
+		if res.Err != nil || res.Panic != "" || !ok || strings.Join(got, "\n") != strings.Join(want, "\n") {
+			r.Report(harness.Violation{Sig: fmt.Sprintf("C14:dictionary:form%d", idx%3), Summary: fmt.Sprintf("list element %q: error %v; block %q, want %q", word, res.Err, got, want), Replay: map[string]interface{}{"source": src, "want": want, "output": res.Out}})
+		}
+	})
+	if !done {
+		r.NotExhaustive("dictionary sweep not completed")
+	}
+	r.Set("dictionary_words", len(words))
 }
 
 func c14Marts(r *harness.Run, tier string, sw map[string]string) {
